@@ -14,7 +14,7 @@ import (
 
 // Desc is a C16 case descriptor.
 type Desc struct {
-	Kind     string `json:"kind"` // xfer | unblock | cycle | silence | lastwords | e2e-cli | e2e-netconf
+	Kind     string `json:"kind"` // xfer | unblock | cycle | silence | lastwords | writeclose | stuckwrite | e2e-cli | e2e-netconf
 	T        string `json:"transport"`
 	ReadSize int    `json:"read_size"`
 	Size     int    `json:"size,omitempty"`              // payload bytes per direction
